@@ -27,8 +27,8 @@
    declarations with note / alias / comment sub-directives, any Unicode text in names and
    comments, and transactions: header (date with either separator, effective date, clear mark,
    code, payee), metadata lines (tag words, key: value, comment), postings (indent, clear mark,
-   account, "  " or tab, value expression with arbitrary sp*: parentheses up to 100 deep, + - * /,
-   unary minus, amount = documented decimal that fits 96 bits / 28 places with optional
+   account, "  " or tab, value expression with arbitrary sp*: parentheses up to 100 deep, a syntax
+   tree up to 256 high (so chains of up to 255 operators), + - * /, unary minus, amount = documented decimal that fits 96 bits / 28 places with optional
    commodity; lot price / date / note in any order, cost @ / @@, balance assertion).
    (C05_grammar_accepted_partial is the earlier theorem without transactions; it is implied.)
    Still NOT covered by the acceptance theorem (hence `_partial`): metadata written on the same
@@ -38,7 +38,8 @@
    Proofs/DocAcceptTxn.v (the finding_ examples): an account of Unicode white space only, a comment like
    `:a: hello`, an account that starts with * or ! without a mark, a payee that starts with (
    without a code when a ) follows later, a day that does not exist, a number over 96 bits,
-   parentheses more than 100 deep (F7). *)
+   parentheses more than 100 deep (F7), an expression whose syntax tree is more than 256 high, e.g.
+   256 numbers joined by + in parentheses (C06-F23). *)
 From Coq Require Import List NArith.
 From Okv Require Import Model.Lit Model.Syntax Model.Comb Model.ParseExpr Model.ParseMeta Model.ParsePosting
   Model.ParseTxn Model.ParseLedger Model.Display Model.DocGrammar Model.RoundTripSpec
